@@ -57,6 +57,9 @@ class Batch:
                     b = {"ok": partition(b["ok"])}
                 elif proj == "sorted":
                     b = {"ok": sorted(b["ok"])}
+                elif proj == "strtype":
+                    if "ok" in a and a["ok"].get("int") == "skip":
+                        b["ok"]["int"] = "skip"
                 elif proj == "render":
                     b = {"ok": b["ok"]["render"]}
                 elif proj == "pipeline":
@@ -479,3 +482,28 @@ def stage_render(batch, inputs, registry, cmps, jobs, dict_fields=(), dict_regex
            "render": jobs, "consts": render_consts(registry)}
     batch.add(req, {"ok": outs}, {"inputs": inputs, "jobs": jobs, "project": "render"})
     return {"ok": outs}
+
+
+def stage_strtype(batch, s):
+    """exact models of int(str) (ASCII grammar) and BooleanString against CPython"""
+    from json_to_models.dynamic_typing import BooleanString, IntString
+
+    def run():
+        out = {}
+        ascii_only = all(ord(ch) < 128 for ch in s)
+        try:
+            i = IntString.to_internal_value(s)
+            out["int"] = str(int(i))
+        except ValueError:
+            out["int"] = None
+        if not ascii_only or len(s) > 4000:
+            out["int"] = "skip"
+        try:
+            out["bool"] = bool(BooleanString.to_internal_value(s))
+        except ValueError:
+            out["bool"] = None
+        return out
+
+    ans = impl_call(run)
+    batch.add({"op": "strtype", "in": s, "lower": s.lower()}, ans, {"string": s, "project": "strtype"})
+    return ans
